@@ -42,7 +42,8 @@ elements), a successful run's image IS the two-pass reference layout of the prog
   `Asm.data_retry` (Lemmas/AsmRetry.lean, property level: Props/C08Asm.lean).
   Hypothesis `plain` (every sub-tree an interrupted evaluation has completed is a leaf, register-free arithmetic or
   `Rn + c`):
-  needed because `evaluate` is not idempotent on its own output (`Simp.resumes_false`); it covers `imm`,
+  was needed as long as `evaluate` was not idempotent on its own output (K4, K5; see Props/C05AsmFull.lean for the
+  statement without it); it covers `imm`,
   `label ± expr`, `[Rn + expr]`, `[expr + Rn]`, `[Rn + sym + 4]`, `[Rn + 4 + sym]`, register lists, every `.du*`
   arithmetic.
   `NoLabelAtTop` is needed for `Ref.layout` (pass 1) only, exactly as in `Layout.ref_defined`.
